@@ -1155,7 +1155,7 @@ class ESDescriptor(Descriptor):
             r.read('H', "depends_on_es_id")
         if url_flag:
             leng = r.get('B', 'url_length')
-            r.read(leng, 'url')
+            rv["url"] = str(r.get(leng, 'url'), 'utf-8')
         else:
             rv["url"] = None
         if ocr_stream_flag:
@@ -1178,8 +1178,11 @@ class ESDescriptor(Descriptor):
         if self.stream_dependence_flag:
             w.write('H', "depends_on_es_id")
         if self.url is not None:
-            w.write('B', 'url_length', len(self.url))
-            w.write(None, 'url')
+            url = self.url
+            if isinstance(url, str):
+                url = bytes(url, 'utf-8')
+            w.write('B', 'url_length', len(url))
+            w.write(None, 'url', url)
         if self.ocr_es_id is not None:
             w.write('H', 'ocr_es_id')
 
